@@ -74,7 +74,12 @@ static int32_t verif_sock_error_is_disconnected(int err)
 }
 #define qb_ipc_us_send verif_qb_ipc_us_send
 #define qb_ipc_us_recv verif_qb_ipc_us_recv
+#ifndef VERIF_C03_READY
 #define qb_ipc_us_ready verif_qb_ipc_us_ready
+#else
+static int32_t verif_c03_ready(struct qb_ipc_one_way *a, struct qb_ipc_one_way *b, int32_t ms, int32_t ev);
+#define qb_ipc_us_ready verif_c03_ready
+#endif
 #define qb_ipc_us_sock_error_is_disconnected verif_sock_error_is_disconnected
 #include "ipcc.c"
 
